@@ -9,13 +9,18 @@ const (
 
 // props is the per-property run configuration (package, test, budgets).
 var props = map[string]propCfg{
-	"C15": {Pkg: "./props/unit", Test: "TestC15",
+	"C15": one(part{Pkg: "./props/unit", Test: "TestC15",
 		Quick:    tierCfg{Cases: 20000, Shards: 1, Timeout: 5 * min, ShrinkTime: 20 * sec},
-		Thorough: tierCfg{Cases: 2000000, Shards: 16, Timeout: 30 * min, ShrinkTime: 60 * sec}},
-	"C17": {Pkg: "./props/unit", Test: "TestC17",
+		Thorough: tierCfg{Cases: 2000000, Shards: 16, Timeout: 30 * min, ShrinkTime: 60 * sec}}),
+	"C17": one(part{Pkg: "./props/unit", Test: "TestC17",
 		Quick:    tierCfg{Cases: 6000, Shards: 2, Timeout: 5 * min, ShrinkTime: 20 * sec},
-		Thorough: tierCfg{Cases: 480000, Shards: 16, Timeout: 40 * min, ShrinkTime: 60 * sec}},
-	"C16": {Pkg: "./props/unit", Test: "TestC16",
+		Thorough: tierCfg{Cases: 480000, Shards: 16, Timeout: 40 * min, ShrinkTime: 60 * sec}}),
+	"C16": one(part{Pkg: "./props/unit", Test: "TestC16",
 		Quick:    tierCfg{Cases: 20000, Shards: 2, Timeout: 5 * min, ShrinkTime: 20 * sec},
-		Thorough: tierCfg{Cases: 2000000, Shards: 16, Timeout: 40 * min, ShrinkTime: 60 * sec}},
+		Thorough: tierCfg{Cases: 2000000, Shards: 16, Timeout: 40 * min, ShrinkTime: 60 * sec}}),
+	"C14": {Parts: []part{
+		{Name: "unit", Pkg: "./props/unit", Test: "TestC14Unit",
+			Quick:    tierCfg{Cases: 3000, Shards: 2, Timeout: 5 * min, ShrinkTime: 20 * sec},
+			Thorough: tierCfg{Cases: 320000, Shards: 16, Timeout: 60 * min, ShrinkTime: 60 * sec}},
+	}},
 }
